@@ -1,2 +1,166 @@
-(* placeholder: property theorems are added with Proofs.v *)
-From LV Require Import Coop.Model.
+(* C17 — property theorems (statements only; proofs are in Proofs.v).
+
+   Vocabulary (Model.v / Proofs.v):
+     close_proposal v r     what CreateCloseProposal / CompleteCooperativeClose
+                            build for view v and request r (error class, or the
+                            transaction descriptor and the caller's balance)
+     mirror_view / mirror_req  the counterparty's view of the same HTLC-free
+                            channel state and of the same request
+     gross_local/remote     commitment balance in sat (msat truncated) plus, for
+                            the channel opener, commit fee + 2 anchors
+     final_local/remote     gross minus the closing fee for the paying party
+     in_range               msat balances are uint64, commit fee and closing fee
+                            in [0, 2^60): Go's int64 arithmetic does not wrap
+     sys_start/sys_run      two honest ChanClosers wired back to back; one unit
+                            of fuel delivers one ClosingSigned                *)
+From Coq Require Import List ZArith Bool Permutation Sorted.
+From LV Require Import Coop.Model Coop.Proofs.
+Import ListNotations.
+Local Open Scope Z_scope.
+
+(* Both parties build the same transaction (version, sequence, locktime,
+   ordered outputs) or fail with the same error class — for every view,
+   fee, script pair, payer override, sequence/locktime option; no range
+   hypothesis (the mirror symmetry also holds where int64 would wrap). *)
+Theorem C17_same_tx : forall v r,
+  match close_proposal v r, close_proposal (mirror_view v) (mirror_req r) with
+  | inr (d, _), inr (d', _) => d = d'
+  | inl e, inl e' => e = e'
+  | _, _ => False
+  end.
+Proof. exact same_tx. Qed.
+
+(* Each party's output equals its exact balance; an output is present iff the
+   owner's final balance reaches the owner's dust limit; BIP69 order;
+   version/sequence/locktime as configured. *)
+Theorem C17_exact_balances : forall v r d b,
+  in_range v r -> close_proposal v r = inr (d, b) ->
+  b = final_local v r /\
+  0 <= final_local v r /\ 0 <= final_remote v r /\
+  Permutation (d_outs d)
+    ((if final_local v r <? v_local_dust v then []
+      else [(match r_sequence r with
+             | Some _ => if r_local_opret r then 0 else final_local v r
+             | None => final_local v r end, r_local_script r)]) ++
+     (if final_remote v r <? v_remote_dust v then []
+      else [(match r_sequence r with
+             | Some _ => if r_remote_opret r then 0 else final_remote v r
+             | None => final_remote v r end, r_remote_script r)])) /\
+  Sorted out_leP (d_outs d) /\
+  d_version d = 2 /\
+  d_sequence d = match r_sequence r with
+                 | Some s => s
+                 | None => if v_taproot v then max_rbf_sequence else max_tx_in_sequence
+                 end /\
+  d_locktime d = match r_locktime r with Some l => l | None => 0 end.
+Proof.
+  intros v r d b HR HP.
+  pose proof (exact_balances v r d b HR HP) as H.
+  unfold local_out, remote_out in H. rewrite !side_out_spec in H. exact H.
+Qed.
+
+(* The proposal is refused with "cannot afford" exactly when the paying party
+   owns less than the fee (after the opener has been credited commit fee and
+   anchors). *)
+Theorem C17_fee_payer_guard : forall v r,
+  in_range v r -> (v_closed v = false \/ r_payer r <> None) ->
+  (close_proposal v r = inl ErrAfford <-> payer_gross v r < r_fee r).
+Proof. exact fee_payer_guard. Qed.
+
+(* Outputs plus fee never exceed the capacity; if nothing is trimmed (and no
+   OP_RETURN output is zeroed) at most the 1 sat lost by msat truncation is
+   missing, and nothing when the balances are whole satoshis. *)
+Theorem C17_conservation : forall v r d b capacity,
+  in_range v r ->
+  v_local_msat v + v_remote_msat v + 1000 * opener_credit v = 1000 * capacity ->
+  close_proposal v r = inr (d, b) ->
+  sum_outs (d_outs d) + r_fee r <= capacity /\
+  (length (d_outs d) = 2%nat ->
+   (r_sequence r = None \/ (r_local_opret r = false /\ r_remote_opret r = false)) ->
+   capacity - 1 <= sum_outs (d_outs d) + r_fee r /\
+   (v_local_msat v mod 1000 = 0 -> sum_outs (d_outs d) + r_fee r = capacity)).
+Proof. exact conservation. Qed.
+
+(* Signatures: with any signature scheme in which a signature on a message
+   verifies under the signer's key, each side's signature on the transaction
+   it built verifies against the transaction the other side built. *)
+Section Signatures.
+  Variables (sk pk msg sig : Type).
+  Variable pub : sk -> pk.
+  Variable digest : descriptor -> msg.
+  Variable sign : sk -> msg -> sig.
+  Variable verify : pk -> msg -> sig -> bool.
+  Hypothesis verify_sign : forall k m, verify (pub k) m (sign k m) = true.
+
+  Theorem C17_signatures_verify : forall v r d b d' b' ka kb,
+    close_proposal v r = inr (d, b) ->
+    close_proposal (mirror_view v) (mirror_req r) = inr (d', b') ->
+    verify (pub ka) (digest d') (sign ka (digest d)) = true /\
+    verify (pub kb) (digest d) (sign kb (digest d')) = true.
+  Proof.
+    intros v r d b d' b' ka kb H1 H2.
+    pose proof (same_tx v r) as S. rewrite H1, H2 in S. subst d'.
+    split; apply verify_sign.
+  Qed.
+End Signatures.
+
+(* Legacy negotiation terminates: ideal fees a (opener) and b, both >= 100 sat
+   and both within the opener's cap and within what the payer can afford.  If n
+   satisfies 100*max*1000^n <= 129*min*1091^n (n = ceil(log_1.091(max/(1.29*min))))
+   then after at most n+4 delivered ClosingSigned messages both sides have
+   completed the close on the same fee, which both signed for and which lies
+   between the ideal fees; nothing is in flight and more fuel changes nothing. *)
+Theorem C17_negotiation_terminates : forall a b cap_o cap_r aff_o aff_r n,
+  100 <= a -> 100 <= b ->
+  Z.max a b <= cap_o -> Z.max a b <= aff_o -> Z.max a b <= aff_r ->
+  Z.max a b < 2 ^ 60 ->
+  100 * Z.max a b * 1000 ^ Z.of_nat n <= 129 * Z.min a b * 1091 ^ Z.of_nat n ->
+  exists f rounds,
+    (rounds <= n + 4)%nat /\ Z.min a b <= f <= Z.max a b /\
+    forall fuel, (n + 4 <= fuel)%nat ->
+      let s := sys_run fuel (sys_start false a cap_o aff_o b cap_r aff_r) in
+      agreed_on s f /\ sys_msg s = None /\ sys_rounds s = rounds.
+Proof. exact negotiation_terminates. Qed.
+
+(* Closed form: if max <= 2^m * min then 8*m + 4 rounds suffice. *)
+Theorem C17_negotiation_round_bound_log2 : forall a b cap_o cap_r aff_o aff_r m,
+  100 <= a -> 100 <= b ->
+  Z.max a b <= cap_o -> Z.max a b <= aff_o -> Z.max a b <= aff_r ->
+  Z.max a b < 2 ^ 60 ->
+  Z.max a b <= Z.min a b * 2 ^ Z.of_nat m ->
+  exists f rounds,
+    (rounds <= 8 * m + 4)%nat /\ Z.min a b <= f <= Z.max a b /\
+    forall fuel, (8 * m + 4 <= fuel)%nat ->
+      let s := sys_run fuel (sys_start false a cap_o aff_o b cap_r aff_r) in
+      agreed_on s f /\ sys_msg s = None /\ sys_rounds s = rounds.
+Proof.
+  intros a b cap_o cap_r aff_o aff_r m Ha Hb H1 H2 H3 H4 H5.
+  apply negotiation_terminates; auto.
+  apply close_enough_log2; auto.
+  apply Z.min_glb_lt; apply Z.lt_le_trans with 100; auto; reflexivity.
+Qed.
+
+(* Taproot channels: the non-opener accepts the opener's first offer. *)
+Theorem C17_taproot_negotiation_terminates : forall a b cap_o cap_r aff_o aff_r,
+  a <= aff_o -> a <= aff_r ->
+  forall fuel, (3 <= fuel)%nat ->
+    let s := sys_run fuel (sys_start true a cap_o aff_o b cap_r aff_r) in
+    agreed_on s a /\ sys_msg s = None /\ sys_rounds s = 3%nat.
+Proof. exact taproot_terminates. Qed.
+
+(* Why the 100 sat guard: without it termination is false.  ratchetFee is the
+   identity below 10 sat, and two honest closers with ideal fees 1 and 5 sat
+   (cap and affordability 1000 sat) never agree, never fail, and always have
+   a ClosingSigned in flight. *)
+Theorem C17_ratchet_stuck_refuted :
+  (forall x up, 0 <= x < 10 -> ratchet_fee x up = x) /\
+  exists a b cap aff,
+    0 < a <= cap /\ 0 < b <= cap /\ cap <= aff /\
+    forall fuel,
+      let s := sys_run fuel (sys_start false a cap aff b cap aff) in
+      agreedb s = None /\ sys_err s = None /\ sys_msg s <> None.
+Proof.
+  split; [exact ratchet_identity_below_10|].
+  exists 1, 5, 1000, 1000. repeat split; try reflexivity; try discriminate;
+    apply (stuck_forever fuel).
+Qed.
